@@ -427,6 +427,14 @@ def run(report, prog, tier):
     # a tag that fails its activation commands is skipped, connect() keeps polling: the activation boundary of nfc.tag (shared with C16-R4)
     from .c16 import rule_activate
     rule_activate(report, prog, rule='C18-R2')
+    # connect() returns promptly after terminate() only if the link release it runs through ends: the access points are shut down
+    # without a blocking DISC handshake on the run-loop thread (C09-R7) and the NFC-DEP loops (deactivation included) stay bounded by
+    # their deadline / counters (C04-R5); both are obligations of this property too, reported as C18-R6
+    from . import c04, c09
+    from ..resolve import Resolver
+    report.run_as({'C09-R7': 'C18-R6'}, c09.rule_shutdown_order, prog, Resolver(prog))
+    report.run_as({'C04-R5': 'C18-R6'}, c04.rule_loops, prog)
+    report.run_as({'C04-R5': 'C18-R6'}, c04.rule_deadlines, prog)
     report.trusted += ['callbacks are opaque; exceptional exits are host-link faults outside this property\'s quantifier']
     report.assumptions += ['the return value of on-release after a true on-connect is what connect() returns (documented defaults return True)']
 
